@@ -537,6 +537,14 @@ func (i *PostingsIterator) nextDocNumAtOrAfter(atOrAfter uint64) (docNum uint64,
 		return docNum, true, nil
 	}
 
+	if atOrAfter > math.MaxUint32 {
+		// document numbers are 32 bits wide: nothing can be at or after this
+		// target (converting it to uint32 below would wrap around); exhaust
+		// the iterator so that it keeps returning nil
+		i.Actual = nil
+		return 0, false, nil
+	}
+
 	if i.Actual == nil || !i.Actual.HasNext() {
 		return 0, false, nil
 	}
